@@ -67,6 +67,7 @@ def sched_params(tier):
     for j in range(D):
         ps += [P(f"gap{j}", 0, L), P(f"arm{j}", 0, 4)]
     ps.append(P("slow", 0, 1))
+    ps.append(P("refused", 0, 1))
     return ps
 
 
@@ -85,6 +86,10 @@ def sched_fn(a, tier):
     env = Env()
     vals = {"match": {} if mk == 4 else object()}
     steps = publisher_steps(env, vals, mk, pos, fillers, cps)
+    refused = pick(a["refused"], 2)
+    if refused:
+        # first a publication that is REFUSED: (T,'special') together with a type whose 'special' is already taken
+        steps = [("pub", "taken", object(), "special", [RT[5]]), ("pubfail", "rejected", object(), "special", [T, RT[5]])] + ([("cp",)] if cps else []) + steps
     probe = {}
 
     def opt_probe(env_, node):
@@ -137,7 +142,10 @@ def sched_fn(a, tier):
     _, exc, k = run(main, chooser=tape)
     summary = {"match": MATCH_KINDS[mk], "match_position": pos, "fillers": [FILLERS[f] for f in fillers], "checkpoints_between": bool(cps),
                "waiters_in": ["prepare", "start"][wphase], "waiter_checkpoints_before_request": wdelay,
-               "publisher_in": ["prepare", "start"][pphase], "slow_first_subscriber": bool(slow), "schedule": tape.taken}
+               "publisher_in": ["prepare", "start"][pphase], "slow_first_subscriber": bool(slow), "schedule": tape.taken,
+               "publisher_first_attempts_a_publication_that_is_refused": bool(refused)}
+    if refused and not env.has("refused", 2, "rejected") and env.has("pub", 2, "rejected"):
+        return FAIL("conflicting-publication-accepted", env.log, summary)
     if exc is not None:
         lost = isinstance(exc, (TimeoutError, symsched.Deadlock))
         return FAIL(f"lost-wakeup:{MATCH_KINDS[mk]}:pos={pos}" if lost else f"startup-failed:{type(exc).__name__}",
@@ -174,7 +182,7 @@ SCHED = Harness(
     title="two waiters, a publisher issuing matching and non-matching publications, a noise publisher; all schedule prefixes",
     bound_text=lambda tier: "waiters for (T,'special') in prepare or start after " + ("1 checkpoint" if tier == "quick" else "0-2 checkpoints") + "; publisher (alias 'p/special') issues 3 publications, "
     "one of them matching (" + "; ".join(MATCH_KINDS) + ") at position 0-2, the others non-matching (" + "; ".join(FILLERS)
-    + "), with/without checkpoints between; a second publisher with alias 'q/other' publishes T under its remapped default name and a third, plain-aliased one under 'default'; optionally an application-level listener with a 1-slot queue that subscribed first and never reads; "
+    + "), with/without checkpoints between, optionally preceded by a publication of (T,'special') together with an already taken type that is refused with ResourceConflict; a second publisher with alias 'q/other' publishes T under its remapped default name and a third, plain-aliased one under 'default'; optionally an application-level listener with a 1-slot queue that subscribed first and never reads; "
     + ("FIFO schedule with ONE deviation: at any one of the first 10 decision points any other runnable task may be picked"
        if tier == "quick" else "FIFO schedule with ONE deviation anywhere in the first 16 decision points, any other runnable task, and all parameter combinations"),
     oracle="startup completes (no TimeoutError/deadlock = no lost wake-up); each waiter returns only after the matching publication and with "
@@ -243,4 +251,88 @@ BURST = Harness(
     stubs=STUBS_COMMON,
 )
 
-HARNESSES = [SCHED, BURST]
+
+# ------------------------------------------------------------------------------ W-abandon
+class _Boom(Exception):
+    pass
+
+
+def abandon_params(tier):
+    L = 10 if tier == "quick" else 16
+    return [P("mode", 0, 1), P("fsteps", 0, 1), P("bdelay", 0, 2), P("pdelay", 0, 2), P("gap0", 0, L), P("arm0", 0, 3)]
+
+
+@guard
+def abandon_fn(a, tier):
+    L = 10 if tier == "quick" else 16
+    mode, fsteps = pick(a["mode"], 2), pick(a["fsteps"], 2)
+    bdelay, pdelay = pick(a["bdelay"], 3), pick(a["pdelay"], 3)
+    tape = DeviationTape([(a["gap0"], a["arm0"])], L)
+    env = Env()
+    calls = []
+
+    async def factory():
+        me = anyio.get_current_task().id
+        calls.append("A" if me == env.misc.get("A_task") else "other")
+        mine = object()
+        env.misc.setdefault("products", []).append(mine)
+        if calls[-1] == "A" and calls.count("A") == 1:
+            # the generation requested by component A is abandoned: it raises / A gives up (its timeout fires) while the factory is awaited
+            for _ in range(fsteps):
+                await anyio.sleep(0)
+            if mode == 0:
+                raise _Boom("generation fails")
+            await anyio.sleep(100)
+        await anyio.sleep(0)
+        return mine
+
+    def remember_task(env_, node):
+        env.misc["A_task"] = anyio.get_current_task().id
+
+    a_steps = [("call", remember_task), ("tryget", "a", T, "special") if mode == 0 else ("giveup", T, "special", 5)]
+    A = NodeSpec(1, 0, prepare=a_steps, start=[], alias="A")
+    B = NodeSpec(2, 0, prepare=[("cp",)] * bdelay + [("wait", "w", T, "special")], start=[], alias="B")
+    Pn = NodeSpec(3, 0, prepare=[("cp",)] * pdelay + [("fac", "MATCH", factory, "special", [T])], start=[], alias="P")
+    nodes = [NodeSpec(0, -1, prepare=[], start=[]), A, B, Pn]
+    classes = build_classes(env, nodes)
+    out = {}
+
+    async def main():
+        async with Context() as ctx:
+            await start_component(classes[0], {}, timeout=1000)
+            out["final"] = await ctx.get_resource(T, "special")
+
+    _, exc, k = run(main, chooser=tape)
+    summary = {"first_generation": ["raises (the requesting component handles it)", "abandoned: the requesting component's own timeout fires while the factory is awaited"][mode],
+               "factory_checkpoints_before_failing": fsteps, "second_consumer_delay": bdelay, "publisher_delay": pdelay, "schedule": tape.taken, "factory_calls": list(calls)}
+    abandoned = bool(calls) and "A" in calls
+    if exc is not None:
+        lost = isinstance(exc, (TimeoutError, symsched.Deadlock))
+        return FAIL(f"abandon:lost-wakeup:mode={mode}" if lost else f"abandon:startup-failed:{type(exc).__name__}", f"{exc!r} log={env.log}", summary)
+    got = env.values.get((2, "w"))
+    products = env.misc.get("products", [])
+    if not env.has("wait_end", 2, "w") or not any(got is p_ for p_ in products):
+        return FAIL("abandon:second-consumer-did-not-get-the-factory-product", repr(got), summary)
+    if out["final"] is not got:
+        return FAIL("abandon:final-lookup-differs", "", summary)
+    if env.index("wait_end", 2, "w") < env.index("pub", 3, "MATCH"):
+        return FAIL("abandon:false-wakeup", env.log, summary)
+    return OK(summary, nontrivial=abandoned)
+
+
+ABANDON = Harness(
+    prop="C06",
+    name="W-abandon",
+    fn=abandon_fn,
+    params=abandon_params,
+    cube=lambda tier: 4,
+    title="a second component waiting behind a generation that is abandoned (factory raises / the first requester gives up) is still served",
+    bound_text=lambda tier: "async factory for (T,'special') published after 0-2 checkpoints; component A requests it and its generation raises after 0-1 "
+    "checkpoints (A handles the error) or is abandoned by A's own 5-tick timeout; component B requests the same resource after 0-2 checkpoints; FIFO schedule "
+    f"with one deviation anywhere in the first {10 if tier == 'quick' else 16} decisions",
+    oracle="startup completes (no TimeoutError / deadlock); B returns a product of the factory, after the publication; later lookups return the same object",
+    outside="more than two consumers; several abandoned generations",
+    stubs=STUBS_COMMON,
+)
+
+HARNESSES = [SCHED, BURST, ABANDON]
